@@ -17,7 +17,7 @@ import (
 
 type Case struct {
 	Format  string     `json:"format"`
-	Threads [][]string `json:"threads"` // ops per thread: A (acquire), R (release newest held), RR (release the same pointer again), RN (release nil), RM (name.Release method)
+	Threads [][]string `json:"threads"` // ops per thread: A (acquire), R (release newest held), RR (release the same pointer again), RN (release nil), RM (name.Release method), D (drop every reference to the names released so far: a finalizer may run from now on), D (drop every reference to the names released so far: a finalizer may run from now on)
 	Bound   int        `json:"bound"`
 	Choices []int      `json:"choices,omitempty"`
 }
@@ -48,6 +48,7 @@ func body(c Case, w *world) func() {
 			vrt.GoNamed(fmt.Sprintf("user%d", ti), func() {
 				var mine []*namepool.Name
 				var last *namepool.Name
+				var dead []*namepool.Name // released, still referenced by this holder
 				for _, op := range ops {
 					switch op {
 					case "A":
@@ -84,6 +85,7 @@ func body(c Case, w *world) func() {
 						delete(w.heldTxt, n.Name())
 						released[id] = true
 						last = n
+						dead = append(dead, n)
 						if op == "RM" {
 							n.Release()
 						} else {
@@ -98,6 +100,11 @@ func body(c Case, w *world) func() {
 						}
 					case "RN":
 						p.Release(nil)
+					case "D":
+						for _, n := range dead {
+							vrt.Unreachable(n)
+						}
+						dead, last = nil, nil
 					}
 				}
 			})
@@ -201,6 +208,10 @@ func main() {
 		}
 	}
 	scen = append(scen, [][]string{{"A", "R", "A"}}, [][]string{{"A", "R", "RR", "A", "A"}})
+	// garbage collection: the holder drops its released names, whatever a finalizer does then must not
+	// hand an id to two holders
+	scen = append(scen, [][]string{{"A", "R", "D", "A", "A"}}, [][]string{{"A", "R", "A", "D", "A", "A"}}, [][]string{{"A", "A", "R", "R", "D", "A", "A", "A"}},
+		[][]string{{"A", "R", "D", "A"}, {"A", "A"}}, [][]string{{"A", "R", "D"}, {"A", "R", "A"}}, [][]string{{"A", "R", "RR", "D", "A"}, {"A", "A"}})
 	// many simultaneous holders: ids far beyond the handful the small scenarios reach
 	rep := func(op string, n int) []string {
 		out := make([]string, n)
